@@ -12,7 +12,8 @@ ID = "C01"
 LEVEL = "exploration"
 RULE = ("seeded random pipelines: depth 0-4 drawn from a catalog of %d operator configurations (all families, arguments "
         "generated) over 1-3 probe sources (cold/hot/synchronous/library from_iterable; each non-conforming with "
-        "probability 1/3: notifications after the terminal one, second terminal, keeps emitting after dispose), "
+        "probability 1/3: notifications after the terminal one, second terminal, keeps emitting after dispose, subscribe "
+        "function raising after its synchronous burst), "
         "numeric or datetime virtual clock, observer passed as object or as callbacks, one injected exception per case "
         "(k-th call of one user callback, or the subscriber's / a window subscriber's own on_next/on_error/on_completed); "
         "in half of the cases the subscribers make every hot source emit re-entrantly from inside their terminal callback; "
@@ -29,6 +30,7 @@ REQUIRED = {"set:ops": len(CATALOG) - 6,
             "probes_checked": {"quick": 1900, "thorough": 800000},
             "window_probes": {"quick": 100, "thorough": 40000},
             "reentrant_kicks": {"quick": 100, "thorough": 40000},
+            "subscribe_functions_raising_after_terminal": {"quick": 30, "thorough": 10000},
             "terminated_probes": {"quick": 800, "thorough": 300000}}
 
 
@@ -130,6 +132,7 @@ def run_case(seed: int, idx: int, res: UnitResult, keep: list | None = None) -> 
     res.count("clock_" + lab.clock_kind)
     if b.livelock:
         res.count("livelock_cut")
+    res.count("subscribe_functions_raising_after_terminal", sum(1 for e in lab.ev if e[2] == "note" and e[3] == "subscribe_raises"))
     res.count("reentrant_kicks", sum(1 for e in lab.ev if e[2] == "note" and e[3] == "kick"))
     res.count("observer_as_callbacks" if as_callbacks else "observer_as_object")
     if fault is not None:
